@@ -97,8 +97,9 @@ class SlowCallback:
         self.names_rev = names_rev
 
     def _rec(self, k, name=None, n=0):
-        if self.delay:
-            time.sleep(self.delay)
+        d = self.delay.get(k, 0) if isinstance(self.delay, dict) else self.delay     # a dict delays the named kinds of event only
+        if d:
+            time.sleep(d)
         f, i = self.names_rev.get(name, (0, 1 + sum(map(ord, name)) % 1000)) if name else (0, 0)   # f = 0: not a data member (directory)
         self.log.append({"e": "cb", "k": k, "f": f, "i": i, "n": int(n), "thread": threading.get_ident() % 100000, "cb": self.cbid})
 
@@ -289,7 +290,7 @@ def run_case(case):
             os.chdir(os.path.join(wd, "elsewhere"))
         if mode == "two":
             objs.append(py7zr.SevenZipFile(path, "r"))
-        delay = {"none": None, "fast": 0, "slow": 0.12}.get(case.get("callback", "none"))
+        delay = {"none": None, "fast": 0, "slow": 0.12, "slowpost": {"post": 0.4}, "slowlast": {"e": 0.03, "post": 0.3}}.get(case.get("callback", "none"))
         cb = make_callback(py7zr, log, delay, names_rev) if case.get("callback", "none") != "none" else None
         cbs = [cb]
         results = [None] * len(objs)
@@ -369,7 +370,7 @@ def run_case(case):
         at_close = len(log)
         for o in objs[1:]:
             o.close()
-        if cb is not None and case.get("callback") == "slow":
+        if cb is not None and case.get("callback") in ("slow", "slowpost", "slowlast"):
             time.sleep(1.5)          # anything still delivered now arrives after close() returned
         trace += log[:at_close]
         trace.append(results[0])
